@@ -16,7 +16,7 @@ git -C /repo worktree add -q --detach "$WT" HEAD || exit 2
 git -C "$WT" apply "$D/patch.diff" || { echo "REFACTOR $id: patch does not apply"; exit 2; }
 if (cd "$WT" && go build ./... && go test -vet=off -count=1 ./... ) >"$OUT/suite.log" 2>&1; then echo "REFACTOR $id: suite passes"; else echo "REFACTOR $id: suite FAILS"; tail -5 "$OUT/suite.log"; fi
 (cd "$WT" && git checkout -q -- go.mod go.sum 2>/dev/null)
-for c in $(python3 -c "import json; print(' '.join(x['property_id'] for x in json.load(open('$VERIF/MANIFEST.json'))['checks']))"); do
+for c in ${CHECKS:-$(python3 -c "import json; print(' '.join(x['property_id'] for x in json.load(open('$VERIF/MANIFEST.json'))['checks']))")}; do
   VERIF_REPO="$WT" VERIF_OUT="$OUT" "$VERIF/check" "$c" "$TIER" >"$OUT/check-$c.log" 2>&1; rc=$?
   v=$(grep -m1 '^VIOLATION' "$OUT/check-$c.log")
   if [ $rc -ne 0 ] || [ -n "$v" ]; then
